@@ -23,7 +23,9 @@ SPEC = {
                   "coalescable shapes - a change of nebula's parse conditions shows up as a model/implementation difference); the model of the kernel's "
                   "segmentation (cross-checked against the harness' independent byte-level segmenter, code 3); the harness and overlay shims; the correspondence is "
                   "differential testing. The theorems assume the representation invariant of the abstraction (wf_batch, checked on every generated batch). "
-                  "Offload.WriteGSO's virtio_net_hdr encoding itself is outside the model: gso_size is taken as the first fragment's length, which is what WriteGSO stamps. "
+                  "Offload.WriteGSO / Write (the virtio_net_hdr encoding) are not modelled in Coq: the harness routes every recorded call through the real tio.Offload over a "
+                  "socketpair and checks the emitted frame against the documented contract (DATA_VALID only for plain writes; NEEDS_CSUM, GSO type by protocol and IP "
+                  "version, hdr_len, gso_size = first fragment, csum_start/offset, bytes = hdr ++ transport hdr ++ fragments); its reference segmenter takes gso_size from that header. "
                   "slices.SortFunc is modelled by a stable insertion sort: equal for distinct (epoch, counter) keys.",
     "gens": ["gen_coalesce"],
     "build_comp": "coalesce",
@@ -33,7 +35,8 @@ SPEC = {
     "trusted": ["model/Coalesce.v commit_staged/commit_parsed/seed/append_slot/seal_flow/render/run are hand-written mirrors of overlay/batch (tied by correspondence)",
                 "model/Coalesce.v kernel_segment is the reference model of Linux TSO/USO segmentation of a tun write (tcp_gso_segment, __udp_gso_segment, inet_gso_segment)",
                 "gen/Consts_Coalesce.v: tcp/udpCoalesceMaxSegs, tcp/udpCoalesceBufSize, TCP flag masks, protocol numbers, tio maxSuperpacketLen / gsoMaxIovs printed from the compiled code",
-                "c_coalesce.go coalAbstract: the reference classification of byte strings into the abstract shapes; coalSegment: the byte-level kernel reference"],
+                "c_coalesce.go coalAbstract: the reference classification of byte strings into the abstract shapes; coalSegment: the byte-level kernel reference; "
+                "coalFrameOK: the contract of the tun write path checked on the real tio.Offload (harness-established, reported through harness_ok / code 2)"],
     "assumptions": ["(epoch, counter) keys of one batch are distinct (replay protection, C11/C12), so the unstable slices.SortFunc has one possible result",
                     "abstract packets satisfy the representation invariant wf_pktb (opaque blob only for unparseable shapes, blank TCP fields in UDP packets, "
                     "32-bit sequence numbers, 16-bit IPv4 IDs); for the checksum statement additionally byte-sized ToS/TTL/protocol fields",
